@@ -32,17 +32,21 @@ func OnceFunc(f func()) func() { return sync.OnceFunc(f) }
 
 const maxPoolItems = 64
 
-// Pool is the modelled sync.Pool.
+// Pool is the modelled sync.Pool.  Pooled objects sit in fixed slots with a
+// sequence number (recency); a slot's atomic word publishes exactly the edge
+// Put(x) -> Get returning x, as the real pool does for the race detector.
 type Pool struct {
 	New func() interface{}
 
-	mu    sync.Mutex
-	items [maxPoolItems]interface{}
-	edge  [maxPoolItems]uint32 // per-slot atomic: publishes Put(x) -> Get(x) only
-	n     int
-	id    int32 // 1-based registry id, 0 = not yet registered
-	gets  int64
-	news  int64
+	mu         sync.Mutex
+	items      [maxPoolItems]interface{}
+	seq        [maxPoolItems]uint64
+	edge       [maxPoolItems]uint32
+	seqCounter uint64
+	n          int
+	id         int32 // 1-based registry id, 0 = not yet registered
+	gets       int64
+	news       int64
 }
 
 var (
@@ -73,6 +77,29 @@ func (p *Pool) register() {
 	regMu.Unlock()
 }
 
+func (p *Pool) releaseEdge(slot int) { atomic.StoreUint32(&p.edge[slot], 1) }
+func (p *Pool) acquireEdge(slot int) { atomic.LoadUint32(&p.edge[slot]) }
+
+// rankSlot returns the slot holding the k-th most recently put object.
+func (p *Pool) rankSlot(k int) int {
+	var used [maxPoolItems]bool
+	slot := -1
+	for r := 0; r <= k; r++ {
+		best := -1
+		for i := 0; i < maxPoolItems; i++ {
+			if p.items[i] != nil && !used[i] && (best < 0 || p.seq[i] > p.seq[best]) {
+				best = i
+			}
+		}
+		if best < 0 {
+			return -1
+		}
+		used[best] = true
+		slot = best
+	}
+	return slot
+}
+
 // Get returns a pooled object or calls New.
 func (p *Pool) Get() interface{} {
 	p.register()
@@ -94,10 +121,9 @@ func (p *Pool) Get() interface{} {
 		}
 		return p.New()
 	}
-	idx := n - 1 - k
-	x := p.items[idx]
-	copy(p.items[idx:n-1], p.items[idx+1:n])
-	p.items[n-1] = nil
+	slot := p.rankSlot(k)
+	x := p.items[slot]
+	p.items[slot] = nil
 	p.n--
 	p.mu.Unlock()
 	return x
@@ -114,9 +140,14 @@ func (p *Pool) Put(x interface{}) {
 		return
 	}
 	p.mu.Lock()
-	if p.n < maxPoolItems {
-		p.items[p.n] = x
-		p.n++
+	for i := 0; i < maxPoolItems; i++ {
+		if p.items[i] == nil {
+			p.items[i] = x
+			p.seqCounter++
+			p.seq[i] = p.seqCounter
+			p.n++
+			break
+		}
 	}
 	p.mu.Unlock()
 }
@@ -136,10 +167,12 @@ func Pools() []*Pool {
 func ResetPools() {
 	for _, p := range Pools() {
 		p.mu.Lock()
-		for i := 0; i < p.n; i++ {
+		for i := range p.items {
 			p.items[i] = nil
+			p.seq[i] = 0
 		}
 		p.n = 0
+		p.seqCounter = 0
 		p.gets, p.news = 0, 0
 		p.mu.Unlock()
 	}
@@ -149,8 +182,12 @@ func ResetPools() {
 func (p *Pool) Items() []interface{} {
 	p.mu.Lock()
 	defer p.mu.Unlock()
-	out := make([]interface{}, p.n)
-	copy(out, p.items[:p.n])
+	out := make([]interface{}, 0, p.n)
+	for k := p.n - 1; k >= 0; k-- {
+		if s := p.rankSlot(k); s >= 0 {
+			out = append(out, p.items[s])
+		}
+	}
 	return out
 }
 
@@ -242,8 +279,8 @@ func (m *RWMutex) RUnlock() {
 	m.real.RUnlock()
 }
 
-func (m *RWMutex) TryLock() bool  { return m.real.TryLock() }
-func (m *RWMutex) TryRLock() bool { return m.real.TryRLock() }
+func (m *RWMutex) TryLock() bool   { return m.real.TryLock() }
+func (m *RWMutex) TryRLock() bool  { return m.real.TryRLock() }
 func (m *RWMutex) RLocker() Locker { return (*rlocker)(m) }
 
 type rlocker RWMutex
